@@ -1,4 +1,5 @@
 import Driver.Ops.Run
+import Driver.Ops.Cfg
 /-! Line-protocol driver of the model: one JSON case per input line, one JSON answer per line.
     To add an op: write `Driver/Ops/<Name>.lean`, import it here, add one line to `opTable`
     (or to `outputTable` for a new output kind of op `run`). -/
@@ -11,7 +12,8 @@ def outputTable : List (String × Ops.OutputFn) := [
 
 /-- ops -/
 def opTable : List (String × (Json → R Json)) := [
-  ("run", Ops.opRun outputTable)
+  ("run", Ops.opRun outputTable),
+  ("cfg", Ops.opCfg)
 ]
 
 def dispatch (j : Json) : R Json := do
